@@ -42,7 +42,7 @@ theorem pickL0_sub {v : VData} {t : Nat} {l0 l1 : List FileMeta} (h : pickL0 v t
 /-- tactic: all clauses of `JobOk` for a modified job record, from the clauses of the old one -/
 macro "jobok" : tactic =>
   `(tactic| (constructor <;>
-      simp only [compactOnly, preAlloc, outPending, outOnDisk, inCommit, ownRange, csnapRange, editRange, delRange,
+      simp only [compactOnly, preAlloc, outPending, outOnDisk, inCommit, ownRange, csnapRange, editRange, delRange, postSwap,
         PastPending, Dead, DeadR, outNo] at * <;> grind))
 
 theorem safe_jAlloc {s : St} {j : Nat} (c : Content) (level : Nat) (h : Safe s) (hj : j < s.nJob)
@@ -52,11 +52,11 @@ theorem safe_jAlloc {s : St} {j : Nat} (c : Content) (level : Nat) (h : Safe s) 
   have hb := jobOk_alloc (c := c) (h.jobs j hj)
   have hlt : ∀ k, k < s.nJob → ∀ f ∈ outNo (s.job k), f < s.nextFile := fun k hk => (h.jobs k hk).outlt
   apply safe_setJob (safe_alloc c h)
-  · obtain ⟨h0, hn1, hn2, h1, h2, h3, h4, h5, h6, h7, h8, h9, h10, h11, h12, h13, h14⟩ := hb
+  · obtain ⟨h0, hn0, hn1, hn2, h1, h2, h3, h4, h5, h6, h7, h8, h9, h10, hrec, h11, h12, h13, h14⟩ := hb
     rcases hpc with ⟨hpc, hk⟩ | hpc <;>
     · simp only [hpc] at *
       constructor <;>
-      simp only [allocFile, compactOnly, preAlloc, outPending, outOnDisk, inCommit, ownRange, csnapRange, editRange, delRange,
+      simp only [allocFile, compactOnly, preAlloc, outPending, outOnDisk, inCommit, ownRange, csnapRange, editRange, delRange, postSwap,
         PastPending, Dead, DeadR, outNo] at * <;> grind
   · right
     intro f hf k hk hmem
@@ -74,19 +74,19 @@ theorem safe_jStartCompact {cfg : Cfg} {s : St} {j : Nat} (h : Safe s) (hj : j <
   have hb0 := h.jobs j hj
   have hcur := h.ver_bound.1
   apply safe_setJob h1
-  · obtain ⟨h0, hn1, hn2, h1, h2, h3, h4, h5, h6, h7, h8, h9, h10, h11, h12, h13, h14⟩ := hb0
+  · obtain ⟨h0, hn0, hn1, hn2, h1, h2, h3, h4, h5, h6, h7, h8, h9, h10, hrec, h11, h12, h13, h14⟩ := hb0
     cases hp : pickL0 (s.ver s.cur) cfg.threshold with
     | none =>
       simp only [hpc] at *
       constructor <;>
-      simp only [setCompacting, snapAcquire, compactOnly, preAlloc, outPending, outOnDisk, inCommit, ownRange, csnapRange, editRange, delRange,
+      simp only [setCompacting, snapAcquire, compactOnly, preAlloc, outPending, outOnDisk, inCommit, ownRange, csnapRange, editRange, delRange, postSwap,
         PastPending, Dead, DeadR, outNo] at * <;> grind [upd]
     | some p =>
       obtain ⟨l0, l1⟩ := p
       have hsub := pickL0_sub hp
       simp only [hpc] at *
       constructor <;>
-      simp only [setCompacting, snapAcquire, compactOnly, preAlloc, outPending, outOnDisk, inCommit, ownRange, csnapRange, editRange, delRange,
+      simp only [setCompacting, snapAcquire, compactOnly, preAlloc, outPending, outOnDisk, inCommit, ownRange, csnapRange, editRange, delRange, postSwap,
         PastPending, Dead, DeadR, outNo] at * <;> grind [upd]
   · left
     cases hp : pickL0 (s.ver s.cur) cfg.threshold with
@@ -98,14 +98,14 @@ theorem safe_jStartCompact {cfg : Cfg} {s : St} {j : Nat} (h : Safe s) (hj : j <
 already destructured and the pc equation rewritten -/
 macro "jobok_at" : tactic =>
   `(tactic| (constructor <;>
-      simp only [compactOnly, preAlloc, outPending, outOnDisk, inCommit, ownRange, csnapRange, editRange, delRange,
+      simp only [compactOnly, preAlloc, outPending, outOnDisk, inCommit, ownRange, csnapRange, editRange, delRange, postSwap,
         PastPending, Dead, DeadR, outNo] at * <;> grind [upd]))
 
 theorem safe_startRollup {s : St} {j : Nat} (h : Safe s) (hj : j < s.nJob) (hpc : (s.job j).pc = .start)
     (hk : (s.job j).kind = .rollupDone) :
     Safe (s.setJob j { s.job j with edit := { rollDel := (s.job j).payload.map (·.1) }, pc := .ready }) := by
   apply safe_setJob h
-  · obtain ⟨h0, hn1, hn2, h1, h2, h3, h4, h5, h6, h7, h8, h9, h10, h11, h12, h13, h14⟩ := h.jobs j hj
+  · obtain ⟨h0, hn0, hn1, hn2, h1, h2, h3, h4, h5, h6, h7, h8, h9, h10, hrec, h11, h12, h13, h14⟩ := h.jobs j hj
     generalize s.job j = b at *
     obtain ⟨kind, pc, payload, snap, inputs, trivial, todoIn, out, edit, csnap, newVer, prev, prevZero, dlist, live, todoDel⟩ := b
     simp only at hpc hk; subst hpc hk
@@ -121,7 +121,7 @@ theorem safe_jPicked {s : St} {j : Nat} (h : Safe s) (hj : j < s.nJob) (hpc : (s
     Safe (jPicked s j) := by
   unfold jPicked
   dsimp only
-  obtain ⟨h0, hn1, hn2, h1, h2, h3, h4, h5, h6, h7, h8, h9, h10, h11, h12, h13, h14⟩ := h.jobs j hj
+  obtain ⟨h0, hn0, hn1, hn2, h1, h2, h3, h4, h5, h6, h7, h8, h9, h10, hrec, h11, h12, h13, h14⟩ := h.jobs j hj
   split
   · apply safe_setJob h
     · generalize s.job j = b at *
@@ -141,7 +141,7 @@ theorem safe_jRead {s : St} {j : Nat} (h : Safe s) (hj : j < s.nJob) (hpc : (s.j
   unfold jRead
   dsimp only
   have hb := h.jobs j hj
-  obtain ⟨h0, hn1, hn2, h1, h2, h3, h4, h5, h6, h7, h8, h9, h10, h11, h12, h13, h14⟩ := hb
+  obtain ⟨h0, hn0, hn1, hn2, h1, h2, h3, h4, h5, h6, h7, h8, h9, h10, hrec, h11, h12, h13, h14⟩ := hb
   split
   next =>
     apply safe_setPc_plain h
@@ -174,13 +174,13 @@ theorem safe_jCreate {cfg : Cfg} {s : St} {j : Nat} (h : Safe s) (hj : j < s.nJo
   have h1 := safe_create (fs := outNo (s.job j)) h hb0.outlt
   have hb := jobOk_create (fs := outNo (s.job j)) hb0
   apply safe_setJob h1
-  · obtain ⟨h0, hn1, hn2, h1, h2, h3, h4, h5, h6, h7, h8, h9, h10, h11, h12, h13, h14⟩ := hb
+  · obtain ⟨h0, hn0, hn1, hn2, h1, h2, h3, h4, h5, h6, h7, h8, h9, h10, hrec, h11, h12, h13, h14⟩ := hb
     generalize s.job j = b at *
     obtain ⟨kind, pc, payload, snap, inputs, trivial, todoIn, out, edit, csnap, newVer, prev, prevZero, dlist, live, todoDel⟩ := b
     simp only at hpc; subst hpc
     cases kind <;> cases out <;>
     · constructor <;>
-      simp only [createFiles, compactOnly, preAlloc, outPending, outOnDisk, inCommit, ownRange, csnapRange, editRange, delRange,
+      simp only [createFiles, compactOnly, preAlloc, outPending, outOnDisk, inCommit, ownRange, csnapRange, editRange, delRange, postSwap,
         PastPending, Dead, DeadR, outNo, Option.toList] at * <;> grind
   · left; rfl
 
